@@ -51,3 +51,7 @@ claim("C27",
       "The first byte (all 256 values) and the version number (all 2^64 values for CBE, 1..3 symbolic decimal digits for CTE) are solver variables through the real choosers, the universal decoder, the CBE decoder and the CTE version listener; z3 shows both choosers pick CTE for 'c'/'C', CBE for 0x81, error otherwise and agree with each other, the universal decoder equals the CBE decoder on 4-byte symbolic documents, and both formats accept exactly the versions 0 and 1.",
       "CTE lexer/parser not executed: the version listener is driven with a symbolic token text; cte/cbe.NewUnmarshaler replaced by zero-value constructors (reflection-built sessions). 'Every encoder writes version 0' is a constant (version.ConciseEncodingVersion) and is not re-proved.",
       "DESIGN.md §5 C27")
+claim("C28",
+      "The reader schedule is the solver variable: a harness io.Reader returns a symbolic number of bytes per call (0..min(len(p),remaining), <= 2 empty reads, optional data+EOF on the last call) over CBE document templates with symbolic payload, valid and truncated; z3 shows events and error-ness equal in-memory decoding for every schedule.",
+      "Bounds: documents 3..12 bytes, 7 templates, cuts of 1..4 bytes. CTE and universal stream entry points delegate to io.Copy/bufio.Peek and then the ANTLR parser: outside reach.",
+      "DESIGN.md §5 C28")
